@@ -68,9 +68,8 @@ def _pos_multiple(a, b):
 
 
 def _not_arg(c):
-    """negation of a condition in App-argument form, comparisons rewritten (`not (d <= 0)` is `-d < 0`)"""
-    if c[0] == 'cmp' and len(c) == 3 and c[1] in ('<', '<='):
-        return ('cmp', '<' if c[1] == '<=' else '<=', -c[2])
+    """negation of a condition in App-argument form; the negation of an ordered comparison stays a negation (`not (d <= 0)`
+    is not `-d < 0` when d is NaN: a squared distance computed from NaN coordinates)"""
     if c[0] == 'cmp' and len(c) == 3 and c[1] in ('==', '!='):
         return ('cmp', '!=' if c[1] == '==' else '==', c[2])
     if c[0] == 'not':
@@ -439,6 +438,13 @@ def check_line(prog, rep, f):
             used.append(repr(K))
             fl = _flat(cnds)
             cmpk = [x for c in cnds for x in ([c] if c[0] != 'and' else c[1:]) if x[0] == 'cmp' and x[1] in ('<', '<=') and _pos_multiple(x[2], val - prev)]
+            negk = [x for c in cnds for x in ([c] if c[0] != 'and' else c[1:]) if x[0] == 'not' and x[1][0] == 'cmp' and x[1][1] in ('<', '<=') and
+                    (_pos_multiple(x[1][2], val - prev) or _pos_multiple(x[1][2], prev - val))]
+            if not cmpk and negk:
+                okl, why = False, ('candidate pixel+(%s) replaces the running minimum unless it is NOT smaller (`if d >= best: forget else: take`): '
+                                   'a NaN distance - a remembered pair with NaN coordinates, as in the halo of an integer dask raster - fails '
+                                   'that test and is adopted; the documented test is `d < best`' % show(K - px, 30))
+                break
             if not cmpk:
                 okl, why = False, 'candidate pixel+(%s) is not compared with the running minimum it replaces' % show(K - px, 30)
                 break
